@@ -195,7 +195,17 @@ def run(chk):
         loop = K.loop_ancestors(r)
         subs = [s for s in (loop[0].body if loop else []) if isinstance(s, ast.Assign) and M.match(M.compile_pat("re.sub($P, '/', path)"), s.value) is not None]
         chk_call = [s for s in (loop[0].body if loop else []) if isinstance(s, ast.Assign) and "_check_request_resolves(request, path)" in norm.raw(s.value)]
-        if subs and chk_call and subs[0].lineno < chk_call[0].lineno and norm.raw(r.exc.args[0]) == "request.raw_path + query":
+        # what is sent: <value> + query, where <value> is the alternative request's raw_path *after* the same collapse (the clone re-quotes the
+        # path through yarl, which drops what it cannot encode - a lone surrogate between two slashes - so the guard on the candidate alone
+        # does not bound the Location)
+        loc = r.exc.args[0] if isinstance(r.exc, ast.Call) and r.exc.args else None
+        locv = norm.subst(loc, r) if loc is not None else None
+        sent = locv.left if isinstance(locv, ast.BinOp) and isinstance(locv.op, ast.Add) else locv
+        sent_guard = M.match(M.compile_pat("re.sub($P, '/', request.raw_path)"), sent) if sent is not None else None
+        if subs and chk_call and subs[0].lineno < chk_call[0].lineno and sent is not None and norm.raw(sent) == "request.raw_path":
+            chk.violation("C14.redirect", r, K.short(r), "location = re.sub('^//+', '/', request.raw_path)",
+                          "the `//` guard is applied to the candidate path, but the Location is the raw_path of the cloned request, which yarl has re-quoted: `GET /\\xff/evil.com` (a raw non-UTF-8 byte, dropped by yarl) is redirected to `////evil.com/` - a scheme-relative URL on another host (the guard of GHSA-v6wp-4m6f-gcjg is bypassed)")
+        elif subs and chk_call and subs[0].lineno < chk_call[0].lineno and sent_guard is not None and norm.raw(sent_guard["P"]) == norm.raw(subs[0].value.args[0]):
             pat = folder.eval(impl.module, subs[0].value.args[0])
             # image of x -> re.sub(pat, "/", x): strings still starting with '//' would have matched pat at position 0
             lang = R.lang(pat, 0, "match")
@@ -229,6 +239,7 @@ def run(chk):
 
     hunt_rules(chk, repo)
     hunt3_rules(chk, repo)
+    hunt4_rules(chk, repo)
 
 
 def _t(v) -> str:
@@ -352,6 +363,64 @@ def hunt_rules(chk, repo):
     else:
         chk.violation("C14.routedef", ga[0], K.short(ga[0]), 'getattr(router, "add_" + method, None) with add_route() as fallback',
                       f"hdrs.METH_ALL contains {', '.join(lacking)} but UrlDispatcher has no add_{lacking[0].lower()}(): web.route('{lacking[0]}', ...) passes the METH_ALL test and add_routes() dies with AttributeError, while router.add_route('{lacking[0]}', ...) works")
+
+
+def hunt4_rules(chk, repo):
+    """Rules written after the fourth defect hunt (F247-F250)."""
+    mod = repo.module(MOD)
+    # ---- C14.quoting (url_for): a URL built with encoded=True is built from quoted text ----------------------------------------------------------------
+    nq = 0
+    for cname, c in mod.classes.items():
+        if not any(x.name == "AbstractResource" for x in repo.mro(c)):
+            continue
+        for mname, m in c.methods.items():
+            if mname != "url_for":
+                continue
+            for call in [x for x in prog.calls_in(m.node) if norm.raw(x.func) == "URL.build" and any(k.arg == "encoded" and norm.raw(k.value) == "True" for k in x.keywords)]:
+                pk = next((k.value for k in call.keywords if k.arg == "path"), None)
+                if pk is None:
+                    continue
+                nq += 1
+                attrs = [a for a in ast.walk(pk) if isinstance(a, ast.Attribute) and norm.raw(a.value) == "self"]
+                quoted_here = any(isinstance(x, ast.Call) and norm.raw(x.func) in ("_requote_path", "_quote_path") for x in ast.walk(pk))
+                quoted_at_store = bool(attrs) and all(any(isinstance(asg, ast.Assign) and norm.raw(asg.targets[0]) == norm.raw(a) and any(isinstance(x, ast.Call) and norm.raw(x.func) in ("_requote_path", "_quote_path") for x in ast.walk(asg.value))
+                                                         for k_ in repo.mro(c) for mm in k_.methods.values() for asg in ast.walk(mm.node)) for a in attrs)
+                derived = any(isinstance(x, ast.Name) for x in ast.walk(pk)) and not attrs  # built from locals that the method quotes itself (DynamicResource)
+                if quoted_here or quoted_at_store or derived:
+                    chk.ok("C14.quoting", call, f"{cname}.url_for(): the path handed to URL.build(encoded=True) is quoted ({'here' if quoted_here else 'where it is stored' if quoted_at_store else 'piecewise'})")
+                else:
+                    chk.violation("C14.quoting", call, K.short(call), f"URL.build(path=_requote_path({norm.raw(pk)}), encoded=True)",
+                                  f"{cname}.url_for() passes the route text as written to URL.build(encoded=True): for `/my docs`, `/what?`, `/a#b` the URL it returns is not the one the route answers (a blank in the request line, the rest read as query / fragment), while the dynamic sibling quotes its literal parts")
+    chk.expect_count("C14.quoting.url_for", nq, 2, "URL.build(encoded=True) calls in url_for() of resources")
+    # ---- C14.match.groups: a variable's regex may contain named groups that do not take part in the match --------------------------------------------------
+    dm = repo.func(MOD, "DynamicResource._match")
+    gd = [c for c in ast.walk(dm.node) if isinstance(c, (ast.DictComp, ast.For)) and "groupdict()" in norm.raw(c)]
+    uq = repo.func(MOD, "_unquote_path_safe") if "_unquote_path_safe" in mod.functions else None
+    handles_none = uq is not None and any(isinstance(i, ast.If) and "is None" in norm.raw(i.test) for i in ast.walk(uq.node))
+    filt = any(isinstance(c, ast.DictComp) and any("is not None" in norm.raw(i) for g_ in c.generators for i in g_.ifs) for c in gd)
+    if gd and (filt or handles_none):
+        chk.ok("C14.match.groups", gd[0], "_match(): a named group that did not take part in the match (value None) is left out of the match info")
+    else:
+        chk.violation("C14.match.groups", gd[0] if gd else dm, K.short(gd[0], 70) if gd else "_match", "... for key, value in match.groupdict().items() if value is not None",
+                      "a route like `/items/{ref:(?P<num>\\d+)|(?P<slug>[a-z-]+)}` matches with one of its inner groups unset: _unquote_path_safe(None) raises TypeError out of router.resolve(), and the request gets no response at all")
+    ph = repo.func("aiohttp/web_request.py", "Request._prepare_hook")
+    asserts = [a for a in ast.walk(ph.node) if isinstance(a, ast.Assert) and "match_info" in norm.raw(a.test)]
+    if asserts:
+        chk.violation("C14.match.groups", asserts[0], K.short(asserts[0]), "if match_info is None: return",
+                      "any exception out of a router's resolve() leaves request._match_info unset; the 500 for it is prepared through _prepare_hook(), whose assertion fails: the error response cannot be sent and the connection is dropped")
+    else:
+        chk.ok("C14.match.groups", ph, "_prepare_hook(): a request that never got a match info (resolve() raised) still gets its error response")
+    # ---- C14.domain.port: the default port a Host value is compared under is the request scheme's ---------------------------------------------------------------
+    dom = mod.classes["Domain"]
+    hard = [c for mname in ("validation", "_normalize_host", "match_domain") if mname in dom.methods for c in ast.walk(dom.methods[mname].node)
+            if isinstance(c, ast.Compare) and any(isinstance(x, ast.Constant) and x.value == 80 for x in ast.walk(c))]
+    mt = dom.methods["match"]
+    by_scheme = any(isinstance(x, ast.Attribute) and x.attr in ("scheme", "secure") for x in ast.walk(mt.node))
+    if not hard and by_scheme:
+        chk.ok("C14.domain.port", mt, "Domain.match(): an absent port is the default of the request's scheme (443 over TLS), none of the helpers compares with a fixed 80")
+    else:
+        chk.violation("C14.domain.port", hard[0] if hard else mt, K.short(hard[0]) if hard else "Domain.match", "self.match_domain(host, 443 if request.scheme == 'https' else 80)",
+                      "domain sub-applications normalise `:80` away whatever the scheme: over TLS `Host: example.com:443` misses the sub-app that `Host: example.com` reaches (same request.url), `add_domain('secure.example:443')` is unreachable with the Host a browser sends, and `plain.example:80` over https reaches a sub-app of another authority")
 
 
 def hunt3_rules(chk, repo):
